@@ -539,17 +539,21 @@ func (r *Renderer) load(x *ssa.UnOp) string {
 		if sp != path {
 			continue
 		}
-		if r.instrReaches(s, x) {
+		if r.storeReachesLoad(s, x, a, path) {
 			cands = append(cands, s)
 		}
 	}
 	if len(cands) == 0 {
 		return origin
 	}
-	if len(cands) == 1 && instrDominates(cands[0], x) && !r.wholeStoreBetween(a, cands[0], x) {
+	originLive := r.originReaches(x, a, path)
+	if len(cands) == 1 && !originLive {
 		return r.E(cands[0].Val)
 	}
-	alts := []string{origin}
+	var alts []string
+	if originLive {
+		alts = append(alts, origin)
+	}
 	for _, s := range cands {
 		alts = append(alts, r.E(s.Val))
 	}
@@ -649,4 +653,56 @@ func (r *Renderer) arrayLit(x *ssa.Slice) (string, bool) {
 		}
 	}
 	return "[" + strings.Join(elems, ", ") + "]", true
+}
+
+// storeReachesLoad: is there a path from store s to load l on which neither the
+// whole variable nor the same field is overwritten?
+func (r *Renderer) storeReachesLoad(s *ssa.Store, l ssa.Instruction, a *ssa.Alloc, path string) bool {
+	kill := func(in ssa.Instruction) bool {
+		st, ok := in.(*ssa.Store)
+		if !ok || st == s {
+			return false
+		}
+		ra, rp := rootAlloc(st.Addr)
+		return ra == a && (rp == "" || rp == path)
+	}
+	ps := &PathSearch{Fn: r.fn, From: s, AvoidInstr: kill, IsTarget: func(in ssa.Instruction) bool { return in == l }}
+	t, _ := ps.Find()
+	return t != nil
+}
+
+// originReaches: can the load observe the value the variable had when it was
+// (whole-)assigned / created, i.e. is there a path from a whole store (or the
+// alloc itself) to the load without a store to this field?
+func (r *Renderer) originReaches(l ssa.Instruction, a *ssa.Alloc, path string) bool {
+	kill := func(in ssa.Instruction) bool {
+		st, ok := in.(*ssa.Store)
+		if !ok {
+			return false
+		}
+		ra, rp := rootAlloc(st.Addr)
+		return ra == a && rp == path
+	}
+	starts := []ssa.Instruction{a}
+	for _, w := range r.wholeStores[a] {
+		starts = append(starts, w)
+	}
+	for _, st := range starts {
+		ps := &PathSearch{Fn: r.fn, From: st, AvoidInstr: func(in ssa.Instruction) bool {
+			if kill(in) {
+				return true
+			}
+			// another whole store restarts the origin: handled as its own start
+			if s2, ok := in.(*ssa.Store); ok && s2 != st {
+				if ra, rp := rootAlloc(s2.Addr); ra == a && rp == "" {
+					return true
+				}
+			}
+			return false
+		}, IsTarget: func(in ssa.Instruction) bool { return in == l }}
+		if t, _ := ps.Find(); t != nil {
+			return true
+		}
+	}
+	return false
 }
